@@ -1,4 +1,4 @@
 From Gv Require Import lib.Bytes lib.Json lib.ExtractAnchor C02.Model C02.Spec.
 Require Import ExtrOcamlBasic.
 Extraction Language OCaml.
-Extraction "model.ml" extraction_anchor resolve envelope marshal complete_root conforms_b root_wf json_eqb data_bytes.
+Extraction "model.ml" extraction_anchor resolve envelope marshal complete_root conforms_b root_wf root_wf_upto json_eqb data_bytes.
